@@ -156,14 +156,6 @@ Definition init_for (c : cfg) (mf : option N) (dbg : bool) : dstate :=
 Definition wf_history (c : cfg) (mf : option N) (dbg : bool) (h : list devent) : bool :=
   wf_protocol c (annotate (Live (init_for c mf dbg)) h).
 
-(* number of shutdown signals in a history (the third one panics) *)
-Fixpoint shutdown_count (h : list devent) : nat :=
-  match h with
-  | [] => 0
-  | SigShutdown _ :: r => S (shutdown_count r)
-  | _ :: r => shutdown_count r
-  end.
-
 (* ground truth of a history: the last status of the Finished event of test t, if any *)
 Fixpoint final_of (h : list devent) (t : tid) : option attempt :=
   match h with
